@@ -612,7 +612,14 @@ def check(rep, tier, seed):
     ]
     # several watches on ONE real gRPC stream, a consumer that pauses and resumes: every watch must go on delivering
     from .. import dyntest
-    return dyntest.run_go_test(rep, "C05", "TestWatchesSharingAStreamSurviveAConsumerPause", "watch-stream-stalled",
-                               "watches sharing one gRPC stream stopped delivering after a pause of the consumer although the stream "
-                               "is open and nothing was cancelled (answers must be sent one at a time: gRPC wakes only one blocked sender)",
+    if dyntest.run_go_test(rep, "C05", "TestWatchesSharingAStreamSurviveAConsumerPause", "watch-stream-stalled",
+                           "watches sharing one gRPC stream stopped delivering after a pause of the consumer although the stream "
+                           "is open and nothing was cancelled (answers must be sent one at a time: gRPC wakes only one blocked sender)",
+                           env={"KB_WATCH_STREAM": "1"}):
+        return True
+    # watch ids of several watches on one real stream (never the id of a live watch, events under the id of their own watch),
+    # and exactly one `canceled` per watch when the server's refusal of a range stream overlaps the client's cancel
+    return dyntest.run_go_test(rep, "C05", "TestWatchIdsAndCancelsOnOneStream", "watch-ids-or-cancels-on-one-stream",
+                               "several watches on ONE gRPC stream: a new watch was given the id of a watch that is still live (its events "
+                               "arrive under the wrong watch), or a watch was ended with more than one `canceled` response",
                                env={"KB_WATCH_STREAM": "1"})
